@@ -120,6 +120,8 @@ def check_instance(parser, v, name, node, lines, text, mode, rec):
         return
     segs = flatten(m, [])
     inlines = [l for l in text.split('\r') if l]
+    if mode == 'blank-tail':
+        inlines = [l.strip() for l in inlines]     # blanks around a segment's text are no part of it, under either setting
     outlines = [s.to_er7() for s in segs]
     if outlines != inlines:
         rec.violation('flattening-differs-from-input', case, {'in': len(inlines), 'out': len(outlines),
@@ -133,6 +135,24 @@ def check_instance(parser, v, name, node, lines, text, mode, rec):
         rec.violation('nondeterministic-tree', case, {}, row=row)
         return
     # a message profile that restates the standard structure (an equal copy, not the library's own objects): same tree
+    if mode in ('repeat', 'random') and got and got[-1].path and name != 'ACK':
+        # a profile restating the structure and declaring one local segment (ZPD) as the last child of the message: when it
+        # arrives the open groups are closed - it is a child of the message, nothing else moves
+        from . import c18
+        t = c18.thaw(tables.lib(v).MESSAGES[name])
+        t[1].append(['ZPD', ['sequence', [['ZPD_1', ['leaf', None, 'ST', 'NOTE', None, 20], [0, 1], 'FIE']]], [0, 1], 'SEG'])
+        try:
+            tz = structref.tree_of(parser.parse_message(text + '\rZPD|n', message_profile={name: c18.freeze(t)},
+                                                        find_groups=True))
+        except Exception as e:
+            rec.violation('parse-with-profile-declaring-a-local-segment-raised:%s' % type(e).__name__, case,
+                          {'exc': repr(e)[:200]}, row=row)
+            return
+        rec.count('local_segment_of_a_profile_arriving_in_an_open_group')
+        if tz != got + [structref.Line('ZPD', ())]:
+            rec.violation('local-segment-declared-by-the-profile-not-attached-to-its-declared-parent', case,
+                          {'tail_of_tree': str(tz[-2:])[:200]}, row=row)
+            return
     if mode in ('repeat', 'random', 'z-inside'):
         from . import c18
         prof = {name: c18.freeze(c18.thaw(tables.lib(v).MESSAGES[name]))}
@@ -234,6 +254,18 @@ def run_shard(spec, rec):
                 text = '\r'.join(out)
                 check_instance(parser, v, name, node, lines, text, mode, rec)
                 rec.seen('modes', mode)
+                if mode in ('all', 'random') and len(out) > 1:
+                    # blanks after the last field of some lines (and before a segment name): the two settings still agree
+                    bout = [l + rng.choice(['', '  ', ' ', '\t']) if k else l for k, l in enumerate(out)]
+                    bout[-1] = bout[-1] + '   '
+                    if len(bout) > 2:
+                        bout[1] = ' ' + bout[1]
+                    if rng.random() < 0.5:
+                        # a sender terminating its segments with CR LF
+                        bout = [out[0]] + ['\n' + l for l in out[1:]]
+                        rec.count('instances_with_CRLF_terminators')
+                    check_instance(parser, v, name, node, lines, '\r'.join(bout), 'blank-tail', rec)
+                    rec.seen('modes', 'blank-tail')
                 if mode in ('all', 'random') and len(out) > 2:
                     # the same instance with locally defined (Z) segments between its lines, also inside groups and right
                     # before a segment of an outer level: every line is kept, in order, under both settings
